@@ -34,6 +34,10 @@ type Solver struct {
 	buf       strings.Builder
 	TimeoutMs int
 	pendingPops int
+	Fallback bool
+	FallbackQueries int
+	lastConj []*Term
+	lastViaFallback bool
 	ResetAfter  int
 	Resets      int
 	guards      map[int32]bool
@@ -62,6 +66,8 @@ func NewSolver(tb *TB, kind string, timeoutMs int) (*Solver, error) {
 		cmd = exec.Command("z3-new", "-in", "-smt2")
 	case "cvc5":
 		cmd = exec.Command("cvc5", "--incremental", "--produce-models", "--lang=smt2", fmt.Sprintf("--tlimit-per=%d", timeoutMs))
+	case "cvc5-int":
+		cmd = exec.Command("cvc5", "--incremental", "--produce-models", "--lang=smt2", "--solve-bv-as-int=sum", fmt.Sprintf("--tlimit-per=%d", timeoutMs))
 	default:
 		return nil, fmt.Errorf("unknown solver %q", kind)
 	}
@@ -84,7 +90,7 @@ func NewSolver(tb *TB, kind string, timeoutMs int) (*Solver, error) {
 			s.Log = f
 		}
 	}
-	if kind == "cvc5" {
+	if strings.HasPrefix(kind, "cvc5") {
 		s.send("(set-logic ALL)\n")
 	} else {
 		s.send(fmt.Sprintf("(set-option :timeout %d)\n", timeoutMs))
@@ -352,7 +358,11 @@ func (s *Solver) check(a, b *Term, keep bool) (Result, error) {
 		s.emitted = s.emitted[:0]
 		s.funs = map[string]bool{}
 		s.guards = map[int32]bool{}
-		s.send(fmt.Sprintf("(set-option :timeout %d)\n(set-option :model.completion true)\n", s.TimeoutMs))
+		if strings.HasPrefix(s.Kind, "cvc5") {
+			s.send("(set-logic ALL)\n")
+		} else {
+			s.send(fmt.Sprintf("(set-option :timeout %d)\n(set-option :model.completion true)\n", s.TimeoutMs))
+		}
 		s.Resets++
 	}
 	seen := map[int32]bool{}
@@ -382,6 +392,18 @@ func (s *Solver) check(a, b *Term, keep bool) (Result, error) {
 			}
 		}
 	}
+	s.lastConj = conj
+	s.lastViaFallback = false
+	if res == ResUnknown && err == nil && s.Fallback {
+		// bit-blasting gave up (typically chains of 64-bit additions/comparisons on the symbolic clock):
+		// re-decide the same query with cvc5's integer encoding of bit-vectors (keeps mod-2^k semantics)
+		r2, _, ferr := s.oneShot(conj, nil)
+		if ferr == nil {
+			res = r2
+			s.FallbackQueries++
+			s.lastViaFallback = true
+		}
+	}
 	switch res {
 	case ResSat:
 		s.Sat++
@@ -401,7 +423,9 @@ func (s *Solver) check(a, b *Term, keep bool) (Result, error) {
 
 // Model is returned by CheckModel; it stays valid until Release.
 type Model struct {
-	s *Solver
+	s        *Solver
+	fallback bool
+	conj     []*Term
 }
 
 // CheckModel is Check that keeps the solver in the sat state so that values can be read.
@@ -415,7 +439,7 @@ func (s *Solver) CheckModel(a, b *Term, extra ...*Term) (Result, *Model) {
 	if r != ResSat {
 		return r, nil
 	}
-	return r, &Model{s}
+	return r, &Model{s: s, fallback: s.lastViaFallback, conj: s.lastConj}
 }
 
 func (m *Model) Release2() {}
@@ -429,6 +453,16 @@ func (m *Model) Eval(ts []*Term) ([]uint64, error) {
 	out := make([]uint64, len(ts))
 	if len(ts) == 0 {
 		return out, nil
+	}
+	if m.fallback {
+		r, vals, err := s.oneShot(m.conj, ts)
+		if err != nil {
+			return nil, err
+		}
+		if r != ResSat {
+			return nil, fmt.Errorf("fallback solver lost the model (%v)", r)
+		}
+		return vals, nil
 	}
 	// terms must be defined; defining at a pushed level is fine for z3 but they would be popped:
 	// so only ask for already-defined terms or constants; otherwise define via let-free inline expression.
@@ -592,4 +626,120 @@ func (p *sparser) value() (uint64, error) {
 		return strconv.ParseUint(tok[2:], 2, 64)
 	}
 	return 0, fmt.Errorf("get-value: cannot parse value %q", tok)
+}
+
+// oneShot decides the conjunction conj with a fresh cvc5 process using the integer encoding of bit-vectors
+// (--solve-bv-as-int=sum) and, when sat, evaluates the terms in eval.
+func (s *Solver) oneShot(conj []*Term, eval []*Term) (Result, []uint64, error) {
+	var sb strings.Builder
+	sb.WriteString("(set-logic ALL)\n")
+	emitted := map[int32]bool{}
+	funs := map[string]bool{}
+	var emit func(t *Term)
+	emit = func(root *Term) {
+		type fr struct {
+			t *Term
+			i int
+		}
+		stack := []fr{{root, 0}}
+		for len(stack) > 0 {
+			top := &stack[len(stack)-1]
+			t := top.t
+			if emitted[t.ID] {
+				stack = stack[:len(stack)-1]
+				continue
+			}
+			if top.i < len(t.Args) {
+				a := t.Args[top.i]
+				top.i++
+				if !emitted[a.ID] {
+					stack = append(stack, fr{a, 0})
+				}
+				continue
+			}
+			emitted[t.ID] = true
+			stack = stack[:len(stack)-1]
+			switch t.Op {
+			case OpConst:
+				continue
+			case OpVar:
+				sb.WriteString("(declare-const v_" + t.Name + " " + sortSMT(t.W) + ")\n")
+				continue
+			}
+			var body string
+			switch t.Op {
+			case OpRead:
+				if !funs[t.Name] {
+					funs[t.Name] = true
+					sb.WriteString("(declare-fun m_" + t.Name + " ((_ BitVec 64)) (_ BitVec 8))\n")
+				}
+				body = "(m_" + t.Name + " " + s.ref(t.Args[0]) + ")"
+			case OpExtract:
+				body = fmt.Sprintf("((_ extract %d %d) %s)", t.K>>8, t.K&0xff, s.ref(t.Args[0]))
+			case OpZExt:
+				body = fmt.Sprintf("((_ zero_extend %d) %s)", t.W-t.Args[0].W, s.ref(t.Args[0]))
+			case OpSExt:
+				body = fmt.Sprintf("((_ sign_extend %d) %s)", t.W-t.Args[0].W, s.ref(t.Args[0]))
+			default:
+				var b strings.Builder
+				b.WriteString("(")
+				b.WriteString(opSMT[t.Op])
+				for _, a := range t.Args {
+					b.WriteString(" ")
+					b.WriteString(s.ref(a))
+				}
+				b.WriteString(")")
+				body = b.String()
+			}
+			sb.WriteString("(define-fun t" + strconv.Itoa(int(t.ID)) + " () " + sortSMT(t.W) + " " + body + ")\n")
+		}
+	}
+	for _, c := range conj {
+		emit(c)
+	}
+	for _, t := range eval {
+		emit(t)
+	}
+	for _, c := range conj {
+		sb.WriteString("(assert " + s.ref(c) + ")\n")
+	}
+	sb.WriteString("(check-sat)\n")
+	if len(eval) > 0 {
+		sb.WriteString("(get-value (")
+		for _, t := range eval {
+			sb.WriteString(s.ref(t) + " ")
+		}
+		sb.WriteString("))\n")
+	}
+	args := []string{"--lang=smt2", "--solve-bv-as-int=sum", fmt.Sprintf("--tlimit=%d", 120000)}
+	if len(eval) > 0 {
+		args = append(args, "--produce-models")
+	}
+	cmd := exec.Command("cvc5", args...)
+	cmd.Stdin = strings.NewReader(sb.String())
+	start := time.Now()
+	outb, err := cmd.Output()
+	s.Time += time.Since(start)
+	out := string(outb)
+	if s.Log != nil {
+		fmt.Fprintf(s.Log, "; fallback cvc5 bv-as-int: %q (%v)\n", strings.SplitN(out, "\n", 2)[0], time.Since(start))
+	}
+	lines := strings.Split(strings.TrimSpace(out), "\n")
+	if len(lines) == 0 {
+		return ResUnknown, nil, fmt.Errorf("cvc5 fallback: no output (%v)", err)
+	}
+	switch strings.TrimSpace(lines[0]) {
+	case "unsat":
+		return ResUnsat, nil, nil
+	case "sat":
+		if len(eval) == 0 {
+			return ResSat, nil, nil
+		}
+		vals, perr := parseValues(strings.Join(lines[1:], " "))
+		if perr != nil || len(vals) != len(eval) {
+			return ResSat, nil, fmt.Errorf("cvc5 fallback: cannot read model: %v", perr)
+		}
+		return ResSat, vals, nil
+	}
+	return ResUnknown, nil, nil
 }
